@@ -1,4 +1,5 @@
 import MitmVerif.Model.C43
+import MitmVerif.Model.C43_Keys
 import Driver.Proto
 open MitmVerif Driver
 open MitmVerif.C43
@@ -59,9 +60,45 @@ def op? (fs : List String) : Option Op :=
   | ["setval", f] => do pure (.setval (← f.toNat?))
   | _ => none
 
+/-! the key generators -/
+def decB (s : String) : Option Bytes := if s = "_" then some [] else Hex.decodeChars s.toList
+def encB (b : Bytes) : String := if b.isEmpty then "_" else Hex.encode b
+def optNat? (s : String) : Option (Option Nat) := if s = "N" then some none else s.toNat?.map some
+
+def flowData? (s : String) : Option FlowData :=
+  match s.splitOn ":" with
+  | ["h", ts, m, u, rq, rs] => do
+    let rs ← if rs = "X" then some none else (optNat? rs).map some
+    pure (.http (← ts.toNat?) (← decB m) (← decB u) (← optNat? rq) rs)
+  | ["t", ts, tcp, a, ls] => do
+    let ls ← if ls = "-" then some [] else (ls.splitOn ",").mapM String.toNat?
+    pure (.stream (← ts.toNat?) (← bit? tcp) (← decB a) ls)
+  | ["d", ts, c, q, r] => do
+    let q ← if q = "N" then some none else (decB q).map some
+    pure (.dns (← ts.toNat?) (← c.toNat?) q (← optNat? r))
+  | _ => none
+
+def showKey : SortKey → String
+  | .num n => s!"n{n}"
+  | .str b => "s" ++ encB b
+
+def key? (s : String) : Option SortKey :=
+  match s.toList with
+  | 'n' :: r => (String.ofList r).toNat?.map .num
+  | 's' :: r => (decB (String.ofList r)).map .str
+  | _ => none
+
 def stepLine (s : VS) (line : String) : VS × String :=
   match fields line with
   | ["reset"] => (init, "ok")
+  | ["keygen", slot, d] =>
+    match slot.toNat?, flowData? d with
+    | some sl, some d => (s, showKey (genKey sl d))
+    | _, _ => (s, "bad-op")
+  | ["keyle", a, b] =>
+    match key? a, key? b with
+    | some a, some b => (s, if a.le b then "1" else "0")
+    | _, _ => (s, "bad-op")
   | fs =>
     match op? fs with
     | some op => let s' := step s op; (s', dump s')
